@@ -129,6 +129,7 @@ class ARINC429DataPacket(object):
 
         :rtype: bytes
         """
+        self.msgcount = len(self.arincwords)
         ret_str = struct.pack("<HH", self.msgcount, 0)
         for a in self.arincwords:
             ret_str += a.pack()
